@@ -22,6 +22,7 @@ type slicer struct {
 	curLoad ssa.Instruction
 	within map[*ssa.Function]bool // when set: a parameter reached without call context is followed to the call sites inside these functions
 	dataOnly bool                 // data dependence only: no control dependence of φ nodes / of which return is taken
+	noPhi    bool                 // do not pass through φ nodes (same-iteration / same-path dependence only)
 	forward  bool                 // store-to-load forwarding inside one function for field addresses with an identical base
 }
 
@@ -122,6 +123,9 @@ func (s *slicer) walk(v ssa.Value, idx int, ctx *sliceCtx, depth int) {
 	case *ssa.Extract:
 		s.walk(x.Tuple, x.Index, ctx, depth+1)
 	case *ssa.Phi:
+		if s.noPhi {
+			return
+		}
 		for i, e := range x.Edges {
 			s.walk(e, 0, ctx, depth+1)
 			if s.dataOnly {
